@@ -224,11 +224,12 @@ class DocGen:
         self.counter = 0
         self.times, self.names = times, names
         self.p_inline = p_inline
+        self.words = WORDS      # the pool of plain lines; replaced by the "realistic" families
         self.p_wrapper_tags = p_wrapper_tags
 
     def word(self):
         self.counter += 1
-        w = self.rng.choice(WORDS)
+        w = self.rng.choice(self.words)
         if self.unique:
             if self.rng.random() < 0.12:
                 # a unique word made of two-byte characters only (and possibly a blank): no ASCII byte on the line
